@@ -353,7 +353,8 @@ def check_numpad(ctx, rep, tier):
     K = load_keys()
     kc = ctx.kc
     for name, t in sorted(tabs.items()):
-        sep = K['decimal_separator'].get(name, K['decimal_separator']['default'])
+        # layouts the property pins have their separator fixed; a layout added later may use either convention
+        sep = K['decimal_separator'].get(name, K['decimal_separator']['default'] if name in K.get('shipped_layouts', []) else ['.', ','])
 
         def expect(kname, m, h, want_set, what):
             k = kc[kname]
